@@ -10,7 +10,7 @@ import os, sys, json, collections, random
 from vf import common, thr
 from vf.common import Check
 
-G_EARLY_US = 12000       # libevent arms and fires timers by CLOCK_MONOTONIC_COARSE (4 ms ticks here, measured lag up to 6 ms idle, more under load): three ticks
+G_EARLY_US = 3000        # the delay queue uses the precise monotonic clock (EVENT_BASE_FLAG_PRECISE_TIMER since the fix): epoll rounds the timeout up, 3 ms covers clock reads on both sides
 G_ORDER_US = 50000       # margin for ordering / cancel rules
 ANCHORS = ['BasicDelayedEventQueue.cpp', 'BasicDelayedEventQueue.h', 'InterpreterImpl.cpp', 'InterpreterImpl.h', 'BasicContentExecutor.cpp', 'SCXMLIOProcessor.cpp']
 
